@@ -81,47 +81,33 @@ Proof. exact chain_correct. Qed.
 Print Assumptions C18_chain.
 
 (* ParseTimeout over binary64 floats ([FFin neg k] = (-1)^neg * k / 2^1074, round to nearest even;
-   Model/ConfigFloatModel.v).  Whenever unparse returns a string, parsing that string gives back
-   a float that denotes the same number (or the same infinity, or nan again): whole seconds,
-   whole milliseconds (checked by the code with ms / 1000 == value, in floating point), and the
-   exact rendering by repr for everything else. *)
+   Model/ConfigFloatModel.v).  unparse returns a string for EVERY float (finite of either sign and
+   any magnitude, subnormal, infinite, nan), and parsing that string gives back a float that
+   denotes the same number (or the same infinity, or nan again): whole seconds, whole milliseconds
+   (checked by the code in floating point: abs(ms) != inf, ms == int(ms), ms / 1000 == value), and
+   the exact rendering by repr for everything else. *)
+Theorem C18_timeout_unparse_total : forall v, timeout_unparse v <> None.
+Proof. exact timeout_unparse_total. Qed.
+Print Assumptions C18_timeout_unparse_total.
+
 Theorem C18_timeout_roundtrip :
-  forall v s, valid_f64 v -> timeout_unparse v = Some s ->
-    faithful_rendering (fun s => option_map f_denote (timeout_parse s)) s (f_denote v).
-Proof. exact timeout_roundtrip. Qed.
+  forall v, valid_f64 v ->
+    exists s, timeout_unparse v = Some s /\
+              faithful_rendering (fun s => option_map f_denote (timeout_parse s)) s (f_denote v).
+Proof. exact timeout_roundtrip_total. Qed.
 Print Assumptions C18_timeout_roundtrip.
 
-(* ... and unparse does return for every float that is not negative (every timeout, nan included) *)
-Theorem C18_timeout_unparse_total_nonneg :
-  forall v, valid_f64 v -> f_neg v = false -> timeout_unparse v <> None.
-Proof. exact timeout_unparse_total_nonneg. Qed.
-Print Assumptions C18_timeout_unparse_total_nonneg.
-
-(* The hypothesis "not negative" is needed: parse accepts "-1e306s", and unparse raises on that
-   value (value * 1000 overflows to -inf; int(-inf) raises OverflowError). *)
-Theorem C18_timeout_unparse_negative_overflow_refuted :
-  exists s v, timeout_parse s = Some v /\ valid_f64 v /\ f_neg v = true /\ timeout_unparse v = None.
-Proof. exact timeout_unparse_negative_overflow_refuted. Qed.
-Print Assumptions C18_timeout_unparse_negative_overflow_refuted.
-
 (* every value parse returns is a float of the model (at most 53 significant bits, below 2^1024),
-   so the round trip holds starting from any string parse accepts, and for the non-negative
-   ones unparse does return *)
+   so the round trip holds starting from any string parse accepts *)
 Theorem C18_timeout_parse_valid : forall s v, timeout_parse s = Some v -> valid_f64 v.
 Proof. exact timeout_parse_valid. Qed.
 Print Assumptions C18_timeout_parse_valid.
 
 Theorem C18_timeout_parse_unparse_parse :
   forall s v, timeout_parse s = Some v ->
-    (forall u, timeout_unparse v = Some u ->
-       faithful_rendering (fun s => option_map f_denote (timeout_parse s)) u (f_denote v)) /\
-    (f_neg v = false ->
-       exists u, timeout_unparse v = Some u /\
-                 faithful_rendering (fun s => option_map f_denote (timeout_parse s)) u (f_denote v)).
-Proof.
-  intros s v Hp. split; [intros u Hu; exact (timeout_parse_unparse_parse s v u Hp Hu)|].
-  intros Hn. exact (timeout_parse_unparse_total_nonneg s v Hp Hn).
-Qed.
+    exists u, timeout_unparse v = Some u /\
+              faithful_rendering (fun s => option_map f_denote (timeout_parse s)) u (f_denote v).
+Proof. exact timeout_parse_unparse_total. Qed.
 Print Assumptions C18_timeout_parse_unparse_parse.
 
 (* a NUMBER in halmos.toml (parse_time's int | float arm: str(arg) + "ms") is that many
